@@ -493,6 +493,44 @@ def _nested(self, loop: ast.For, x: str, kind: str):
 _Norm._nested = _nested
 
 
+def _unalias_appends(fn: ast.FunctionDef) -> None:
+    """`k = A if c else B; k.append(v)` (k a local used nowhere else)  ==>
+    `if c: A.append(v) else: B.append(v)`: the accumulator is chosen by alias; the two-list
+    partition form that the loop normaliser knows says the same thing"""
+    uses: Dict[str, int] = {}
+    for n in ast.walk(fn):
+        if isinstance(n, ast.Name):
+            uses[n.id] = uses.get(n.id, 0) + 1
+    for parent in ast.walk(fn):
+        for field in ('body', 'orelse'):
+            blk = getattr(parent, field, None)
+            if not (isinstance(blk, list) and blk and isinstance(blk[0], ast.stmt)):
+                continue
+            i = 0
+            while i + 1 < len(blk):
+                a, b = blk[i], blk[i + 1]
+                if isinstance(a, ast.Assign) and len(a.targets) == 1 and \
+                        isinstance(a.targets[0], ast.Name) and isinstance(a.value, ast.IfExp) and \
+                        isinstance(a.value.body, ast.Name) and \
+                        isinstance(a.value.orelse, ast.Name) and \
+                        isinstance(b, ast.Expr) and isinstance(b.value, ast.Call) and \
+                        isinstance(b.value.func, ast.Attribute) and \
+                        b.value.func.attr in ('append', 'add') and \
+                        isinstance(b.value.func.value, ast.Name) and \
+                        b.value.func.value.id == a.targets[0].id and \
+                        uses.get(a.targets[0].id, 0) == 2 and \
+                        a.targets[0].id not in _names(ast.Module(body=[ast.Expr(x) for x in
+                                                               b.value.args], type_ignores=[])):
+                    def mk(acc: ast.Name) -> ast.stmt:
+                        c = copy.deepcopy(b.value)
+                        c.func.value = ast.Name(acc.id, ast.Load())
+                        return ast.copy_location(ast.Expr(c), b)
+                    blk[i:i + 2] = [ast.copy_location(
+                        ast.If(a.value.test, [mk(a.value.body)], [mk(a.value.orelse)]), a)]
+                    ast.fix_missing_locations(blk[i])
+                i += 1
+
+
 def normalise_function(fn: ast.FunctionDef) -> ast.FunctionDef:
     """the function with accumulation loops rewritten and straight-line re-assignments renamed
     apart (the node itself when nothing qualifies)"""
@@ -500,6 +538,7 @@ def normalise_function(fn: ast.FunctionDef) -> ast.FunctionDef:
     if not any(isinstance(n, ast.For) for n in ast.walk(fn)):
         return fn
     new = copy.deepcopy(fn)
+    _unalias_appends(new)
     nm = _Norm(new)
     new.body = nm.block(new.body)
     if not nm.changed:
